@@ -4,6 +4,7 @@ import (
 	"fmt"
 	"sort"
 	"strings"
+	"sync/atomic"
 
 	"github.com/open-policy-agent/opa/ast"
 
@@ -53,9 +54,10 @@ type Opaque struct {
 	Tag string
 }
 
-var idCounter int
+// identities of symbolic structures; programs are checked by concurrent workers
+var idCounter int64
 
-func nextID() int { idCounter++; return idCounter }
+func nextID() int { return int(atomic.AddInt64(&idCounter, 1)) }
 
 func NewSObj() *SObj { return &SObj{id: nextID(), Fields: map[string][]Alt{}} }
 
